@@ -76,6 +76,15 @@ def cases(rng, tier):
         yield "mn_bits_ok %d" % n, "helper-bits-ok"
     for n in SIZES:
         yield "mn_from_ent " + sx(rb(n).hex()), "after-helpers"
+    # hex text in which one digit is a non-ASCII character that some str method maps to it (full-width, mathematical …)
+    look = common.unicode_lookalikes()
+    for n in SIZES[:2 if tier == "quick" else 5]:
+        e = rb(n).hex()
+        for _ in range(6):
+            j = rng.randrange(len(e))
+            subs = look.get(e[j], []) + look.get(e[j].upper(), [])
+            if subs:
+                yield "mn_from_ent " + sx(e[:j] + rng.choice(subs) + e[j + 1:]), "unicode-lookalike-hex"
     # the sentence a wallet REPORTS for its entropy, read after another wallet has been created
     for n in SIZES:
         a_, b_ = rb(n).hex(), rb(rng.choice(SIZES)).hex()
